@@ -10,6 +10,7 @@ import (
 	"context"
 	"errors"
 	"fmt"
+	"time"
 
 	"github.com/ipfs/boxo/path"
 	blocks "github.com/ipfs/go-block-format"
@@ -31,10 +32,14 @@ const (
 	Garbage        // Get returns a decode error (block bytes are not valid for the codec)
 	NotEntry       // Get returns a valid CBOR node that is not an entry (a map with alien keys)
 	Slow           // Get blocks until its context is cancelled, then returns the context error
+	Late           // Get delivers the block after LateFor (virtual time), or the context error if the context ends first
 )
 
+// LateFor is how long a Late block takes to arrive.
+const LateFor = 5 * time.Second
+
 func (f Fault) String() string {
-	return [...]string{"ok", "absent", "error", "garbage", "notentry", "slow"}[f]
+	return [...]string{"ok", "absent", "error", "garbage", "notentry", "slow", "late"}[f]
 }
 
 // Hooks connect the store to the controlled scheduler (nil in the sequential engines).
@@ -43,6 +48,8 @@ type Hooks struct {
 	Acquire    func(p *uint64)               // race-detector edges for Add(c) -> Get(c)
 	Release    func(p *uint64)
 	WaitCancel func(ctx context.Context) // block (virtually) until ctx is done
+	// Delay blocks (virtually) for d or until ctx is done, whichever is first, and returns ctx.Err()
+	Delay func(ctx context.Context, d time.Duration) error
 }
 
 type slot struct {
@@ -261,6 +268,12 @@ func (d dagSvc) Get(ctx context.Context, c cid.Cid) (format.Node, error) {
 			<-ctx.Done()
 		}
 		return nil, ctx.Err()
+	}
+	if f == Late && s.Hooks != nil && s.Hooks.Delay != nil {
+		if err := s.Hooks.Delay(ctx, LateFor); err != nil {
+			s.note(Call{Op: "get", Cid: c})
+			return nil, err
+		}
 	}
 	if err := ctx.Err(); err != nil {
 		s.note(Call{Op: "get", Cid: c})
